@@ -343,7 +343,12 @@ class Extractor:
             self._count('RX', max(n, 1))
             applied.append('RX(pre) %r => %r x%d' % (a, b, max(n, 1)))
         for (a, b) in (getattr(self, '_preregex', None) or []):
+            optional = a.startswith('?')
+            if optional:
+                a = a[1:]
             new_body, n = re.subn(a, b, new_body)
+            if n == 0 and optional:
+                continue
             if n == 0:
                 raise LostAnchor('%s: preregex %r matched nothing' % (qual, a))
             self._count('RX', n)
